@@ -157,58 +157,49 @@ Proof.
   - f_equal; [now destruct (h_dims h) as [[? ?] ?]|]. rewrite <- (map_id (h_comps h)) at 2. apply map_ext. apply canon_to_wcomp.
 Qed.
 
-(* ---------- the decoded legacy poses are such poses ---------- *)
-Lemma lenN_repeat {X} (x : X) n : lenN (repeat x n) = N.of_nat n.
-Proof. unfold lenN. now rewrite repeat_length. Qed.
-Lemma lenN_flat_map_uniform {X Y} (f : X -> list Y) l c : Forall (fun x => lenN (f x) = c) l -> lenN (flat_map f l) = lenN l * c.
-Proof. induction 1 as [|x l Hx _ IH]; [reflexivity|]. cbn [flat_map]. rewrite lenN_app, IH, Hx. unfold lenN. cbn [length]. lia. Qed.
-
-Lemma comps_lengths L comps pcs : 1 <= L ->
-  Forall2 (fun comp pts => lenN pts = lenN (c_points comp) /\ Forall (wf_point L) pts) comps pcs ->
-  lenN (flat_map (fun pts : list point00 => flat_map fst pts) pcs) = sumN (map (fun c => lenN (c_points c)) comps) * (L - 1) /\
-  lenN (flat_map (fun pts : list point00 => map snd pts) pcs) = sumN (map (fun c => lenN (c_points c)) comps).
+Lemma window_len (F K : N) s0 e0 : (0 <= s0 <= e0)%Z -> (e0 <= Z.of_N F)%Z ->
+  N.min (Z.to_N ((e0 - s0) * Z.of_N K)) (F * K - Z.to_N (s0 * Z.of_N K)) = Z.to_N (e0 - s0) * K.
 Proof.
-  intros HL1 Hw. induction Hw as [|comp pts comps pcs [H1 H2] _ [IH1 IH2]]; [split; reflexivity|].
-  cbn [flat_map map sumN fold_right]. rewrite !lenN_app, IH1, IH2.
-  assert (E1 : lenN (flat_map fst pts) = lenN pts * (L - 1)).
-  { apply lenN_flat_map_uniform. eapply Forall_impl; [|exact H2]. intros q [Hq _]. lia. }
-  assert (E2 : lenN (map snd pts) = lenN pts) by (unfold lenN; now rewrite map_length).
-  rewrite E1, E2, H1. unfold sumN. split; lia.
+  intros Hse He.
+  replace (Z.to_N ((e0 - s0) * Z.of_N K)) with (Z.to_N (e0 - s0) * K) by (rewrite Z2N.inj_mul by lia; now rewrite N2Z.id).
+  replace (Z.to_N (s0 * Z.of_N K)) with (Z.to_N s0 * K) by (rewrite Z2N.inj_mul by lia; now rewrite N2Z.id).
+  assert (H : Z.to_N (e0 - s0) * K <= (F - Z.to_N s0) * K) by (apply N.mul_le_mono_r; lia).
+  rewrite N.mul_sub_distr_r in H. lia.
 Qed.
-Lemma person_lengths h L p : 1 <= L -> wf_person h L p ->
-  lenN (person_data p) = total_points h * (L - 1) /\ lenN (person_conf p) = total_points h.
-Proof. intros HL1 Hw. apply (comps_lengths L _ _ HL1 Hw). Qed.
-
-Lemma v00_pose_ok c : wf00 c -> legacy_pose_ok (first_person_view c).
+(* ---------- the decoded legacy poses are such poses ---------- *)
+(* v0.0: any window [s0, e0) of the first-person view (C04_V00.v00_window_view), in particular the whole view *)
+Lemma v00_window_pose_ok c s0 e0 : wf00 c -> (0 <= s0 <= e0)%Z -> (e0 <= frames00 c)%Z ->
+  legacy_pose_ok (v00_window_view c s0 e0).
 Proof.
-  intros [Hh [Hver [Hfps [HF [Hne [HL2 [HL Hfr]]]]]]].
-  unfold legacy_pose_ok, first_person_view. cbn [p_header p_body b_fps b_shape b_data b_conf].
+  intros Hwf Hse He. destruct (frame_lengths c Hwf) as [Hd Hc].
+  destruct Hwf as [Hh [Hver [Hfps [HF [Hne [HL2 [HL Hfr]]]]]]].
+  unfold legacy_pose_ok, v00_window_view, first_person_view, window_body, frames00 in *.
+  cbn [p_header p_body b_fps b_shape b_data b_conf] in *.
   set (h := k0_header c) in *. set (L := spec_floats_per_point h) in *.
   split; [exact Hh|]. split; [exists (k0_fps c); split; [exact Hfps|reflexivity]|].
-  exists (lenN (k0_frames c)), 1, (spec_dims h).
+  exists (Z.to_N (e0 - s0)), 1, (spec_dims h).
+  change (spec_points h) with (total_points h).
   split; [reflexivity|]. split; [rewrite (num_dims_spec _ Hne); unfold spec_dims; fold L; f_equal; lia|].
   split; [unfold spec_dims; fold L; lia|]. split; [unfold u16 in HF; lia|]. split; [unfold u16; lia|].
-  change (spec_points h) with (total_points h).
-  assert (Hd : Forall (fun f => lenN (frame_data (total_points h) (spec_dims h) f) = total_points h * spec_dims h) (k0_frames c)).
-  { eapply Forall_impl; [|exact Hfr]. intros [|p rest] [_ Hw]; cbn [frame_data]; [rewrite lenN_repeat; lia|].
-    inversion Hw; subst. destruct (person_lengths h L p ltac:(lia) ltac:(assumption)) as [E _]. exact E. }
-  assert (Hc : Forall (fun f => lenN (frame_conf (total_points h) f) = total_points h) (k0_frames c)).
-  { eapply Forall_impl; [|exact Hfr]. intros [|p rest] [_ Hw]; cbn [frame_conf]; [rewrite lenN_repeat; lia|].
-    inversion Hw; subst. destruct (person_lengths h L p ltac:(lia) ltac:(assumption)) as [_ E]. exact E. }
-  rewrite (lenN_flat_map_uniform _ _ _ Hd), (lenN_flat_map_uniform _ _ _ Hc). split; lia.
+  rewrite !lenN_takeN, !lenN_dropN.
+  rewrite (lenN_flat_map_uniform _ _ _ Hd), (lenN_flat_map_uniform _ _ _ Hc).
+  replace (Z.of_N (1 * total_points h) * Z.of_N (spec_dims h))%Z with (Z.of_N (total_points h * spec_dims h)) by lia.
+  replace (1 * total_points h) with (total_points h) by lia. rewrite !N.mul_1_l.
+  split; apply window_len; lia.
+Qed.
+Lemma v00_pose_ok c : wf00 c -> legacy_pose_ok (first_person_view c).
+Proof.
+  intros Hwf. rewrite <- (v00_window_full c Hwf). apply v00_window_pose_ok; [exact Hwf| |]; unfold frames00; lia.
 Qed.
 
-Lemma v01_pose_ok c a : wf01 c -> valid_window01 c a ->
-  (end0 (a_ef a) (frames01 c) - start0 (a_sf a) < 4294967296)%Z ->
-  legacy_pose_ok (v01_expected c a).
+(* v0.1: any window [s0, e0) of the recording *)
+Lemma v01_pose_ok c s0 e0 : wf01 c -> (0 <= s0 <= e0)%Z -> (e0 <= frames01 c)%Z -> (e0 - s0 < 4294967296)%Z ->
+  legacy_pose_ok (v01_view c (Z.to_N s0) (Z.to_N e0)).
 Proof.
-  intros Hwf [Hv1 Hv2] Hbig. destruct (v01_counts c Hwf) as [Hne [Hnd HD1]].
+  intros Hwf Hse He0 Hbig. destruct (v01_counts c Hwf) as [Hne [Hnd HD1]].
   destruct Hwf as [Hh [Hver [Hfps [Hff [HP [HP1 [HT1 [HL [Hlen [HF53 [Hdat Hcnf]]]]]]]]]]].
-  unfold legacy_pose_ok, v01_expected, v01_view. cbn [p_header p_body b_fps b_shape b_data b_conf].
+  unfold legacy_pose_ok, v01_view. cbn [p_header p_body b_fps b_shape b_data b_conf].
   set (h := k1_header c) in *. unfold frames01 in *.
-  set (s0 := start0 (a_sf a)) in *. set (e0 := end0 (a_ef a) (Z.of_N (lenN (k1_data c)))) in *.
-  assert (He0 : (e0 <= Z.of_N (lenN (k1_data c)))%Z) by (unfold e0, end0; destruct (a_ef a); lia).
-  assert (Hs0 : (0 <= s0)%Z) by (unfold s0, start0; destruct (a_sf a) as [z|]; [destruct (0 <? z)%Z eqn:E|]; lia).
   assert (HlenN : lenN (k1_conf c) = lenN (k1_data c)) by (unfold lenN; now rewrite Hlen).
   split; [exact Hh|]. split; [exists (k1_fps c); split; [exact Hfps|reflexivity]|].
   exists (Z.to_N e0 - Z.to_N s0), (k1_people c), (spec_dims h).
@@ -222,12 +213,15 @@ Proof.
   split; lia.
 Qed.
 
+Theorem legacy_rewrite_v00_window c s0 e0 : wf00 c -> (0 <= s0 <= e0)%Z -> (e0 <= frames00 c)%Z ->
+  exists bs, write_pose (to_wpose (v00_window_view c s0 e0)) = Ok bs /\
+    forall legacy m, MemoOK m -> fst (read_bytes legacy m bs no_args) = Ok (rewrite_view (v00_window_view c s0 e0)).
+Proof. intros H Hs He. apply rewrite_ok. now apply v00_window_pose_ok. Qed.
 Theorem legacy_rewrite_v00 c : wf00 c ->
   exists bs, write_pose (to_wpose (first_person_view c)) = Ok bs /\
     forall legacy m, MemoOK m -> fst (read_bytes legacy m bs no_args) = Ok (rewrite_view (first_person_view c)).
 Proof. intros H. apply rewrite_ok, v00_pose_ok, H. Qed.
-Theorem legacy_rewrite_v01 c a : wf01 c -> valid_window01 c a ->
-  (end0 (a_ef a) (frames01 c) - start0 (a_sf a) < 4294967296)%Z ->
-  exists bs, write_pose (to_wpose (v01_expected c a)) = Ok bs /\
-    forall legacy m, MemoOK m -> fst (read_bytes legacy m bs no_args) = Ok (rewrite_view (v01_expected c a)).
-Proof. intros H Hv Hb. apply rewrite_ok. now apply v01_pose_ok. Qed.
+Theorem legacy_rewrite_v01 c s0 e0 : wf01 c -> (0 <= s0 <= e0)%Z -> (e0 <= frames01 c)%Z -> (e0 - s0 < 4294967296)%Z ->
+  exists bs, write_pose (to_wpose (v01_view c (Z.to_N s0) (Z.to_N e0))) = Ok bs /\
+    forall legacy m, MemoOK m -> fst (read_bytes legacy m bs no_args) = Ok (rewrite_view (v01_view c (Z.to_N s0) (Z.to_N e0))).
+Proof. intros H Hs He Hb. apply rewrite_ok. now apply v01_pose_ok. Qed.
